@@ -450,6 +450,11 @@ def other_routes(ctx, scene, x, ref, case):
     try:
         got["dumps-response"] = json.loads(jr.dumps(x, methodresponse=True, rpcid=1, config=scene.cfg))["result"]
         got["dumps-request"] = json.loads(jr.dumps([x], "m", rpcid=1, config=scene.cfg))["params"][0]
+        # the data of an error travels like a result (None excepted: "no data")
+        if x is not None:
+            got["dumps-fault-data"] = json.loads(jr.dumps(jr.Fault(1, "m", data=x), methodresponse=True, rpcid=1,
+                                                          config=scene.cfg))["error"].get("data")
+            got["fault-response-data"] = json.loads(jr.Fault(1, "m", data=x, config=scene.cfg).response(7))["error"].get("data")
         disp = SimpleJSONRPCDispatcher(config=scene.cfg)
         disp.register_function(lambda: x, "get")
         for form, body in (("server-2.0-form-request", '{"jsonrpc": "2.0", "method": "get", "id": 1}'),
